@@ -245,22 +245,14 @@ class C42(core.Check):
     MODEL_IMPORTS = ['gen.Gen_play', 'model.Play']
     QUICK_CASES = 800
     THOROUGH_CASES = 12000
-    # std-lib axioms behind Coq's real numbers and the `interval` tactic; they occur ONLY in C42_freq_table
-    # (and C42_freq_A440 / C42_freq_octaves for the Reals axioms); every other theorem is closed
+    # std-lib axioms of Coq's real numbers (Coq.Reals and the classical lemmas it uses); they occur ONLY in
+    # C42_freq_table and C42_freq_A440; every other theorem is closed under the global context
     ALLOWED_AXIOMS = set(
-        # NOT axioms: vlib.core.axiom_names takes every `token :` of the Print Assumptions text for a name, which
-        # also catches the binders inside the axioms' types (`forall P : Prop, ...`, `forall x y : int, ...`)
-        ['P', 'b', 'g', 'i', 'j', 'n', 'p', 'x', 'y'] +
         ['ClassicalDedekindReals.sig_forall_dec', 'ClassicalDedekindReals.sig_not_dec', 'Classical_Prop.classic',
          'FunctionalExtensionality.functional_extensionality_dep'] +
-        ['PrimInt63.' + n for n in
-         'int add sub mul div mod land lor lxor lsl lsr eqb ltb leb compare head0 tail0 addc subc addcarryc '
-         'subcarryc mulc diveucl diveucl_21 addmuldiv'.split()] +
-        ['Uint63.' + n for n in
-         'add_spec sub_spec mul_spec div_spec mod_spec land_spec lor_spec lxor_spec lsl_spec lsr_spec eqb_correct '
-         'eqb_refl ltb_spec leb_spec compare_def_spec head0_spec tail0_spec of_to_Z addc_def_spec subc_def_spec '
-         'addcarryc_def_spec subcarryc_def_spec mulc_spec diveucl_def_spec diveucl_21_spec '
-         'addmuldiv_def_spec'.split()])
+        # NOT axioms: vlib.core.axiom_names takes every `token :` of the Print Assumptions text for a name, which
+        # also catches the binders inside the axioms' types (`forall P : Prop, ...`, `forall n : nat, ...`)
+        ['P', 'g', 'n', 'x'])
     TRUSTED = [
         'hand model model/Play.v of Sound.play_/emit_tone and of the MML scanner (mlparser.py, codestream.py), one '
         'voice, default syntax (no Tandy/PCjr V command and multi-voice), tied by correspondence on a recording '
@@ -269,8 +261,10 @@ class C42(core.Check):
         'correspondence requires every observed duration and state float to be within 2^-40 relative of the exact '
         'value (decided inside Coq on the exact integer ratio of the observed float)',
         'libm pow behind NOTE_FREQ is not modelled: the table is regenerated as exact binary64 values and each entry '
-        'is proved within 2^-40 relative of 440*2^((i-33)/12) by the interval tactic (std-lib real-number axioms, '
-        'PrimInt63 primitives and Uint63 specification axioms, confined to the frequency theorems)',
+        'is proved within 2^-40 relative of 440*2^((i-33)/12): one exact integer comparison per entry '
+        '((f(1-e)/440)^12 <= 2^(i-33) <= (f(1+e)/440)^12, vm_compute) lifted to Rpower by a general lemma; the '
+        'std-lib real-number axioms (sig_forall_dec, sig_not_dec, classic, functional_extensionality_dep) are '
+        'confined to C42_freq_table / C42_freq_A440',
         'timing/waiting (TimedQueue, background buffer) is not part of the property; cases keep <= 32 queue items',
     ]
     RULE = ('1..3 PLAY M$ statements per Session in background mode; strings are random renderings (blanks, case, '
